@@ -256,7 +256,7 @@ pub static C04: PropDef = PropDef {
            allocation, under in-place-rehash conditions, or in a Clone/Drop/closure/Into/iterator callback",
     level: "fault_enumeration",
     cases_quick: 5000,
-    cases_thorough: 120_000,
+    cases_thorough: 40_000,
     strategy: c04_strategy,
     eval: eval_c04,
     nontrivial: c04_nontrivial,
